@@ -849,8 +849,10 @@ class Interp:
             return value.kind != AText.EMPTY
         if isinstance(value, Atom):
             return True
-        if isinstance(value, (Sym, RInt)):
-            raise Undecided("truth value of number %r" % (value,))
+        if isinstance(value, RInt):
+            return value.value != 0  # a comparison with the constant 0
+        if isinstance(value, Sym):
+            return self.order.sign(_order_key(value), ("c", 0)) != 0
         if isinstance(value, (Obj, FuncRef, BoundMethod, ClassRef, ExtRef, ModuleRef, GenVal, AbsIter)):
             if isinstance(value, Obj) and isinstance(value.cls, ClassInfo):
                 if self.model.lookup_method(value.cls, "__bool__") or self.model.lookup_method(value.cls, "__len__"):
